@@ -410,6 +410,7 @@ func (s *handler) handle(ctx context.Context, req request, w func(func(io.Writer
 
 	// /////////////////
 
+	vhook("handle.call", s, req.Method, req.ID)
 	callResult, err := doCall(req.Method, handler.handlerFunc, callParams)
 	if err != nil {
 		rpcError(w, &req, 0, xerrors.Errorf("fatal error calling '%s': %w", req.Method, err))
@@ -524,6 +525,7 @@ func (lw *lazyWriter) Write(p []byte) (n int, err error) {
 			})
 			if !called {
 				// no writer could be obtained (e.g. the connection is closed)
+				vhook("lw.failed", lw)
 				close(failed)
 			}
 		}()
